@@ -401,6 +401,13 @@ func runC10(seed int64, tier string, sc *Script) map[string]any {
 		if vkind == "saveindex" {
 			// a name the handle holds in memory only (no system call), then the save under test
 			victimOps = []crashOp{mk("tag", u.Nodes[0], "unsaved", false, true), victim}
+			if (si/9)%2 == 1 {
+				// a batch without automatic saving, then the option switched back on and an
+				// explicit SaveIndex: it writes the index like any other
+				victimOps[1].AutoSave = true
+				victim.AutoSave = true
+				sc.Count("saveindex:after-switching-autosave-back-on")
+			}
 		}
 		b, _ := json.Marshal(victimOps)
 		os.WriteFile(opsFile, b, 0o644)
